@@ -56,6 +56,9 @@ def gen_cases(tier, seed):
     nb = 16 if tier == "quick" else 160
     for i in range(nb):
         cases.append({"id": f"buf{i}", "family": "buffers", "seed": [seed, "buf", i], "n": 12})
+    modes = ["ddp", "hsdp", "hybrid"]
+    for i in range(36 if tier == "quick" else 400):
+        cases.append({"id": f"live{i}", "family": "live", "mode": modes[i % 3], "seed": [seed, "live", i]})
     return cases
 
 
@@ -227,7 +230,7 @@ def run_case(case):
 
 
 def conclusive(agg, results, tier):
-    need = {"with_ties": 200, "opt_compared": 200, "buffer_views_checked": 500, "determinism_checks": 200}
+    need = {"with_ties": 200, "opt_compared": 200, "buffer_views_checked": 500, "determinism_checks": 200, "live_blocks_placed": 100, "live_buffer_views_checked": 100}
     low = {k: agg.get(k, 0) for k in need if agg.get(k, 0) < need[k]}
     if low:
         return f"too few observations: {low}"
